@@ -54,6 +54,7 @@ L_K1_Q = {"k": 1, "kmask0": 63, "maxtok": 2, "tokmask": 1, "shapemask": 8191, "n
 L_K2_FLAT = {"k": 2, "kmask0": 63, "kmask1": 63, "maxtok": 1, "tokmask": 1, "shapemask": 34, "nvals": 2}
 L_K2_INNER = {"k": 2, "maxtok": 2, "mintok0": 2, "maxtok1": 1, "tokmask": 1, "shapemask": 2328, "nvals": 2, "kmask0": 7, "kmask1": 56}
 L_K2_COPYEDIT = {"k": 2, "maxtok": 2, "maxtok0": 1, "mintok1": 2, "tokmask": 1, "shapemask": 2328, "nvals": 2, "kmask0": 16, "kmask1": 7}
+L_IDX = {"k": 1, "kmask0": 63, "maxtok": 2, "mintok0": 1, "tokmask": 2, "shapemask": 432, "nvals": 2}
 L_LIMIT = {"k": 2, "kmask0": 16, "kmask1": 16, "maxtok": 1, "tokmask": 1, "shapemask": 40960, "nvals": 2, "limit": 1}
 L_LIMIT1 = {"k": 1, "kmask0": 16, "maxtok": 2, "tokmask": 1, "shapemask": 57344, "nvals": 2, "limit": 1}
 MERGE_Q = [{"docm": 2, "docvals": 6, "patchm": 2, "patchvals": 12}, {"docm": 1, "docvals": 2, "patchm": 3, "patchvals": 2}, {"docm": 2, "docvals": 2, "patchm": 2, "patchvals": 6, "emptynames": 1}]
@@ -96,6 +97,9 @@ R["C04"] = {"harnesses": [
       "Apply / ApplyIndent of 10 companion patches (incl. root replaced by null followed by add, test without value, copy from root) to every document of n bytes"),
     H("H_Bytes_ApplyOpts", ns(0, 3), ns(0, 5), ["bytes/applyopts/end"],
       "ApplyIndentWithOptions with all five options symbolic (limit: any int64), 10 companion patches, every document of n bytes"),
+    H("H_Bytes_InString", [{"k": 3}, {"k": 4, "hi": 1}], [{"k": 3}, {"k": 4}, {"k": 5, "hi": 1}], ["bytes/instring/end"],
+      "k unconstrained bytes (hi=1: k unconstrained NON-ASCII bytes, i.e. every well-formed and malformed UTF-8 sequence) inside a string literal (member value, member name, pointer, operation value) of otherwise well-formed arguments, through DecodePatch+accessors+Apply, Equal, MergePatch, MergeMergePatches, CreateMergePatch"),
+    H("H_Bytes_InString", [{"k": 3}], [{"k": 3}, {"k": 4, "hi": 1}], ["bytes/instring/end"], "legacy root package: the same family", target="legacy"),
     H("H_Apply", [AP_K1_SMALL, dict(AP_K2_FLAT, shapemask=98)], [AP_K1, AP_K2_DEEP], ["apply/end"], "the C01 family (well-formed but awkward: null members/elements, root-replacing operations followed by another operation)"),
     H("H_Equal", EQ_Q, None, ["equal/true"], "the C06 family"),
     H("H_Merge", [{"docm": 1, "docvals": 6, "patchm": 2, "patchvals": 10}], None, ["merge/end"], "the C02 family"),
@@ -215,7 +219,7 @@ R["C15"] = {"harnesses": [
                     "Apply on the empty document: open known finding KF-empty-doc"],
     "outside_bound": ["strings of more than 2 atoms", "invalid UTF-8 input (the property is stated for UTF-8 input)"]}
 
-R["C18"] = {"harnesses": [H("H_Legacy_Apply", [L_K1_Q, L_K2_FLAT, L_K2_INNER, L_K2_COPYEDIT, L_LIMIT1], [L_K1, L_K2_FLAT, L_K2_INNER, L_K2_COPYEDIT, L_LIMIT1, L_LIMIT, dict(L_K2_FLAT, shapemask=315, maxtok=2)],
+R["C18"] = {"harnesses": [H("H_Legacy_Apply", [L_K1_Q, L_K2_FLAT, L_K2_INNER, L_K2_COPYEDIT, L_LIMIT1, L_IDX], [L_K1, L_K2_FLAT, L_K2_INNER, L_K2_COPYEDIT, L_LIMIT1, L_LIMIT, L_IDX, dict(L_K2_FLAT, shapemask=315, maxtok=2)],
     ["legacy/end", "legacy/ref-fails"], AP_BOUND.replace("SupportNegativeIndices symbolic", "package variable SupportNegativeIndices on/off; optionally package variable AccumulatedCopySizeLimit = any int64") + "; pointers have at least one token (v4 offers no root-replacing add and no copy from the root)", target="legacy")],
     "anchors": ["json-patch.findObject", "(github.com/evanphx/json-patch.Patch).copy", "(github.com/evanphx/json-patch.Patch).move", "(github.com/evanphx/json-patch.Patch).test", "(github.com/evanphx/json-patch.Patch).add", "(github.com/evanphx/json-patch.Patch).remove", "(github.com/evanphx/json-patch.Patch).replace", "json-patch.deepCopy", "(*github.com/evanphx/json-patch.lazyNode).equal"],
     "assumptions": ["the root package is staged (non-test *.go files copied at check time) into a scratch module named github.com/evanphx/json-patch; the standard library's encoding/json (this toolchain's source) is executed under the same reflect model",
@@ -239,12 +243,12 @@ R["C20"] = {"harnesses": [H("H_C20_Main", [{"maxfiles": 2}], [{"maxfiles": 3}], 
     "outside_bound": ["more than 3 files", "go-flags' argument parsing, the operating system, process exit plumbing", "the root cmd/json-patch (identical source apart from the import path)"]}
 
 R["C09"] = {"harnesses": [
-    H("H_History", [{"len": 1}, {"len": 2}], [{"len": 1}, {"len": 2}, {"len": 3}], ["history/B-succeeds", "history/end"],
+    H("H_History", [{"len": 1}], [{"len": 1}, {"len": 2}], ["history/B-succeeds", "history/end"],
       "r1 := B(x); len arbitrary calls; r2 := B(x) with B one of Apply, ApplyIndent, CreateMergePatch, Equal, MergePatch, MergeMergePatches and each intervening call one of 13 kinds (the six again with other leaves, a failing Apply, malformed document / patch / merge patch / Equal operand / CreateMergePatch operand, ApplyWithOptions with EscapeHTML off); leaves symbolic; sync.Pool modelled as a LIFO stack so every pooled decoder/encoder/scanner state left behind by one call is handed to the next"),
     H("H_SharedPatch", [{}], None, ["shared/end"], "one decoded Patch applied to D1, D2, D1 vs a freshly decoded Patch each time; the Patch's raw messages and a result fed back as the next document are compared byte for byte before/after")],
     "anchors": ["internal/json.UnmarshalValid", "internal/json.MarshalEscaped", "(*github.com/evanphx/json-patch/v5/internal/json.decodeState).init", "internal/json.newScanner", "internal/json.freeScanner", "(github.com/evanphx/json-patch/v5.Operation).value", "v5.newRawMessage"],
     "assumptions": ["sync.Pool = per-pool LIFO stack (the behaviour of the runtime on one goroutine with GC off; the native replay runs with GC disabled)", "concurrency is C10 (not applicable)"],
-    "outside_bound": ["histories longer than 3 calls", "the in-package inductive step on an arbitrary stale decodeState (DESIGN section 5 C09(d)) is not built"]}
+    "outside_bound": ["histories with more than 2 intervening calls (1 in quick)", "the in-package inductive step on an arbitrary stale decodeState (DESIGN section 5 C09(d)) is not built"]}
 
 R["C17"] = {"harnesses": [
     H("H_Codec_RoundTrip", [{"natoms": 1, "atommask": 2047, "pad": 0}, {"natoms": 1, "atommask": 1, "pad": 1}], [{"natoms": 2, "atommask": 2047, "pad": 0}, {"natoms": 1, "atommask": 2047, "pad": 1}], ["codec/object", "codec/roundtrip-end"],
